@@ -95,17 +95,43 @@ Definition env_trimmed (e : env) : bool :=
 (** Every option that sets the URL path gives a tidy one (absolute, already clean). *)
 Definition opt_path_tidy (o : opt) : bool :=
   match opt_path o with Some p => tidy p | None => true end.
-(** An endpoint variable that parses has a host (so its path is empty or absolute). *)
-Definition ep_has_host (v : bytes) : bool :=
-  match rd_url v with Some u => negb (is_nil (u_host u)) | None => true end.
-(** The generic endpoint's path is empty, "/", tidy, or tidy followed by one "/". *)
+(** The path of an endpoint variable that parses is empty or absolute (always the case when
+    the URL has a host). *)
+Definition ep_path_abs (v : bytes) : bool :=
+  match rd_url v with Some u => is_nil (u_path u) || starts_with [47] (u_path u) | None => true end.
+(** The generic endpoint's path is empty, "/", or a tidy path optionally followed by one "/". *)
 Definition gen_path_plain (v : bytes) : bool :=
   match rd_url v with
-  | Some u => let p := strip_slash (u_path u) in is_nil p || tidy p
+  | Some u => let p := strip_slash (u_path u) in is_nil p || (tidy p && negb (bytes_eqb p [47]))
   | None => true
   end.
 Definition path_inputs_ok (opts : list opt) (e : env) : bool :=
-  forallb opt_path_tidy opts && ep_has_host (spec_ep e) && ep_has_host (gen_ep e) && gen_path_plain (gen_ep e).
+  forallb opt_path_tidy opts && ep_path_abs (spec_ep e) && ep_path_abs (gen_ep e) && gen_path_plain (gen_ep e).
+
+(** *** the shapes on which the exporters are NOT uniform (recorded findings); the uniform
+    statements are made outside them *)
+(** F-C20-2 (log): the generic endpoint's path ends in '/'. *)
+Definition gen_path_no_trailing_slash (e : env) : bool :=
+  match rd_url (gen_ep e) with Some u => negb (ends_with_slash (u_path u)) | None => true end.
+(** F-C20-3 (trace, metric): the signal-specific endpoint's path is not tidy. *)
+Definition spec_path_tidy (e : env) : bool :=
+  match rd_url (spec_ep e) with Some u => is_nil (u_path u) || tidy (u_path u) | None => true end.
+(** The shape matters only when that source decides the path. *)
+Definition is_some {A} (o : option A) : bool := match o with Some _ => true | None => false end.
+Definition path_shape_uniform (f : family) (opts : list opt) (e : env) : bool :=
+  is_some (last_some opt_path opts) ||
+  match f with
+  | FLog => is_some (rd_path_specific (spec_ep e)) || gen_path_no_trailing_slash e
+  | _ => spec_path_tidy e
+  end.
+(** F-C20-4 (trace, metric): a compression variable holds an unknown name. *)
+Definition absent_or {A} (rd : bytes -> option A) (v : bytes) : bool :=
+  negb (present v) || match rd v with Some _ => true | None => false end.
+Definition comp_wellformed (f : family) (e : env) : bool :=
+  match f with FLog => true | _ => absent_or rd_comp (spec_comp e) && absent_or rd_comp (gen_comp e) end.
+(** F-C20-5 (trace, metric): a headers variable holds a malformed entry. *)
+Definition hdrs_wellformed (f : family) (e : env) : bool :=
+  match f with FLog => true | _ => absent_or rd_headers (spec_hdr e) && absent_or rd_headers (gen_hdr e) end.
 
 (** For gRPC the endpoint is a dial target: the URL names a host and nothing more. *)
 Definition grpc_target_plain (v : bytes) : bool :=
@@ -113,6 +139,16 @@ Definition grpc_target_plain (v : bytes) : bool :=
   | Some u => bytes_eqb (path_join (u_host u) (u_path u)) (u_host u)
   | None => true
   end.
+
+(** Replacing every variable that provides nothing (unparsable under the uniform reading) by an
+    unset one. *)
+Definition blank_unless {A} (rd : bytes -> option A) (v : bytes) : bytes :=
+  match rd v with Some _ => v | None => [] end.
+Definition scrub (e : env) : env :=
+  {| gen_ep := blank_unless rd_url (gen_ep e); spec_ep := blank_unless rd_url (spec_ep e);
+     gen_hdr := blank_unless rd_headers (gen_hdr e); spec_hdr := blank_unless rd_headers (spec_hdr e);
+     gen_comp := blank_unless rd_comp (gen_comp e); spec_comp := blank_unless rd_comp (spec_comp e);
+     gen_tmo := blank_unless rd_timeout (gen_tmo e); spec_tmo := blank_unless rd_timeout (spec_tmo e) |}.
 
 (** ** the documented lenient readings (trace and metric exporters: "Supported value: gzip";
     a header list keeps its well-formed entries) *)
